@@ -1,6 +1,6 @@
 #include "../engine.h"
 #define P(x) Prop *make_##x();
-P(c01) P(c02) P(c03) P(c04) P(c05) P(c06) P(c12) P(c13) P(c16)
+P(c01) P(c02) P(c03) P(c04) P(c05) P(c06) P(c10) P(c11) P(c12) P(c13) P(c16)
 #undef P
 Prop *make_prop(const std::string &id) {
 	if (id == "C01") return make_c01();
@@ -9,6 +9,8 @@ Prop *make_prop(const std::string &id) {
 	if (id == "C04") return make_c04();
 	if (id == "C05") return make_c05();
 	if (id == "C06") return make_c06();
+	if (id == "C10") return make_c10();
+	if (id == "C11") return make_c11();
 	if (id == "C12") return make_c12();
 	if (id == "C13") return make_c13();
 	if (id == "C16") return make_c16();
